@@ -244,6 +244,10 @@ class Interp:
             out: list[Any] = []
             self._comp(e.generators, 0, dict(env), lambda en: out.append(self.ev(e.elt, en)))
             return set(out) if isinstance(e, ast.SetComp) else out
+        if isinstance(e, ast.DictComp):
+            pairs: list[Any] = []
+            self._comp(e.generators, 0, dict(env), lambda en: pairs.append((self.ev(e.key, en), self.ev(e.value, en))))
+            return dict(pairs)
         if isinstance(e, ast.Call):
             return self.call(e, env)
         if isinstance(e, ast.JoinedStr):
